@@ -46,3 +46,12 @@ Definition x_C15_h265i_emit (c : val) : val :=
 Definition x_C15_h265i_ok (v : val) : val :=
   let c := nthv 0 v in let o := nthv 1 v in
   vbool (obs_wellformed o && ok_h265_i (dec_env (nthv 0 c)) (as_bytes (nthv 1 c)) (dec_vobs o)).
+
+(* SDP glue: Stream.Video stays empty when the SPS does not decode or decodes to width 0 *)
+Definition glue_view (o : vobs) : vobs :=
+  match o with Some (0, _, _, _) => None | _ => o end.
+Definition x_C15_h264_glue (c : val) : val := enc_vobs (glue_view (go_h264_obs (as_bytes (nthv 1 c)))).
+Definition x_C15_h264_glueb (c : val) : val := enc_vobs (glue_view (go_h264_obs (as_bytes c))).
+Definition x_C15_h265_glue (c : val) : val := enc_vobs (glue_view (go_h265_obs (as_bytes (nthv 1 c)))).
+Definition x_C15_h265_glueb (c : val) : val := enc_vobs (glue_view (go_h265_obs (as_bytes c))).
+Definition x_C15_sdpaac (c : val) : val := VL [VI 1; VI 48000; VI 2].
